@@ -1,10 +1,12 @@
 //! C36 correspondence: host calls through the REAL generated bindings.
 //!
 //! `harness/c36gen` is a crate whose build script runs `abra_core::generate_host_function_enum` on a
-//! fixed signature file (46 `#host fn`s of arity 0–4 over every type constructor nested to depth 3,
-//! three `#host` structs with void fields, two `#host` enums) and links the generated
-//! `HostFunctionArgs::from_vm`, `HostFunctionRet::into_vm` and struct/enum `VmType` impls.  This binary
-//! (now 54 signatures, incl. several-array and array-in-tuple shapes) generates, per case, random argument values and a random result value, writes the Abra program that
+//! fixed multi-file signature set (65 `#host fn`s of arity 0–4 over every type constructor nested to depth 3,
+//! tuples up to width 12, seven `#host` structs with void fields and four `#host` enums, five of the types in
+//! modules imported in all four import forms) and links the generated `HostFunctionArgs::from_vm`,
+//! `HostFunctionRet::into_vm` and struct/enum `VmType` impls.  This binary generates, per case, random
+//! argument values and a random result value, writes the Abra program (three call forms, four call shapes,
+//! optionally one array object used in two places; every argument is printed again after the call) that
 //! passes the arguments as literals and prints what the host function returned, and lets the child
 //! process run it on the real compiler + VM, reading the arguments and writing the result with the
 //! generated code.  Compared with the Lean model `Abra.Marshal`: the arguments the host saw (in
